@@ -222,6 +222,7 @@ type Workload struct {
 	Replica     bool // also mount a replica and compare it after every statement
 	Compress    bool
 	ModeSwitch  bool // include journal-mode switches (rollback <-> WAL)
+	AllocFree   bool // transactions that allocate pages and free them again before they commit (never-written free pages)
 	LockPage    bool // grow the database past SQLite's lock page (1 GiB), work around it, shrink below it, grow again
 }
 
@@ -322,6 +323,9 @@ func Run(w Workload, dir string) (res Result) {
 			if got := cur.img.Checksum(lp); got != uint64(cur.pos.PostApplyChecksum) {
 				d["from_scratch"] = fmt.Sprintf("%016x", got)
 				fail("C04", "C04.reported-equals-from-scratch", "checksum/"+firstWord(sqlText)+"/"+w.JournalMode, d)
+				if keep := os.Getenv("VERIF_T3_KEEP"); keep != "" {
+					_ = sim.CopyDir(p.Dir, keep)
+				}
 			}
 		}
 		if expectNoChange {
@@ -498,6 +502,9 @@ func Run(w Workload, dir string) (res Result) {
 			ok = exec1("BEGIN IMMEDIATE; COMMIT", true)
 		case c < 16 && w.AutoVacuum == "incremental": // grow, then free pages inside one transaction
 			ok = exec1(fmt.Sprintf("BEGIN; INSERT INTO t(k, v) SELECT k, randomblob(2000) FROM t LIMIT %d; DELETE FROM t WHERE id > (SELECT max(id) FROM t) - %d; PRAGMA incremental_vacuum; COMMIT", 50+rnd.Intn(200), 40+rnd.Intn(200)), false)
+		case c < 17 && w.AllocFree: // pages are allocated and freed inside one transaction: with a cache large enough
+			// SQLite never writes them, but the database may grow over them (free-list leaves with DONT_WRITE)
+			ok = exec1(fmt.Sprintf("BEGIN; INSERT INTO t(k, v) SELECT x, randomblob(3000) FROM (WITH RECURSIVE c(x) AS (SELECT 1 UNION ALL SELECT x+1 FROM c WHERE x < %d) SELECT x FROM c); DELETE FROM t WHERE id > (SELECT max(id) FROM t) - %d; INSERT INTO t(k, v) VALUES (5, randomblob(%d)); COMMIT", 40+rnd.Intn(100), 30+rnd.Intn(60), 100+rnd.Intn(5000)), false)
 		case c < 17 && w.JournalMode == "wal":
 			mode := []string{"PASSIVE", "FULL", "RESTART", "TRUNCATE"}[rnd.Intn(4)]
 			ok = exec1("PRAGMA wal_checkpoint("+mode+")", true)
